@@ -79,27 +79,19 @@ Proof.
     vm_compute. reflexivity.
 Qed.
 
-(* legalfloor: the weight is dropped as well; a hard module whose branch has an
-   integer x comes back as fixed *)
+(* legalfloor: the weight is dropped as well, and so is the region of a rectangle *)
 Definition doc_weight_rects : ytree :=
-  netlist_doc [("A", rect_mod (qc 4 1) [num 2; num 2; num 2; num 2]);
+  netlist_doc [("A", rect_mod (qc 4 1) [num 2; num 2; num 2; num 2; YStr "lut"]);
                ("B", rect_mod (qc 2 1) [num 6; num 2; num 2; num 1])]
               [YList [YStr "A"; YStr "B"; yfloat (qc 5 2)]].
-Definition doc_hard_int : ytree :=
-  netlist_doc [("B", YMap [(KW_HARD, YBool true);
-                           (KW_RECTANGLES, YList [YList [num 6; num 6; num 2; num 2];
-                                                  YList [num 8; num 6; num 2; num 1]])])] [].
 
 Lemma legal_netlist_rt_refuted : forall sqrt_o,
-  (exists n t n', read_netlist sqrt_o eps_ref doc_weight_rects = Ok n /\ legal_netlist n = Some t /\
-                  read_netlist sqrt_o eps_ref t = Ok n' /\ map n_weight (nl_nets n') <> map n_weight (nl_nets n)) /\
-  (exists n t n', read_netlist sqrt_o eps_ref doc_hard_int = Ok n /\ legal_netlist n = Some t /\
-                  read_netlist sqrt_o eps_ref t = Ok n' /\ map m_fixed (nl_modules n) = [false] /\
-                  map m_fixed (nl_modules n') = [true]).
+  exists n t n', read_netlist sqrt_o eps_ref doc_weight_rects = Ok n /\ legal_netlist n = Some t /\
+                 read_netlist sqrt_o eps_ref t = Ok n' /\
+                 map n_weight (nl_nets n') <> map n_weight (nl_nets n) /\
+                 map mr_region (nl_rects n') <> map mr_region (nl_rects n).
 Proof.
-  intro sqrt_o. split.
-  - eexists. eexists. eexists. split; [vm_compute; reflexivity|]. split; [vm_compute; reflexivity|].
-    split; [vm_compute; reflexivity|]. vm_compute. discriminate.
-  - eexists. eexists. eexists. split; [vm_compute; reflexivity|]. split; [vm_compute; reflexivity|].
-    split; [vm_compute; reflexivity|]. split; vm_compute; reflexivity.
+  intro sqrt_o.
+  eexists. eexists. eexists. split; [vm_compute; reflexivity|]. split; [vm_compute; reflexivity|].
+  split; [vm_compute; reflexivity|]. split; vm_compute; discriminate.
 Qed.
